@@ -78,7 +78,7 @@ pub fn jobs(ctx: &Ctx) -> Vec<Job> {
         }
     }
     // arbitrary strings and option combinations
-    let n = ctx.tier.pick(25_000, ctx.scale(1_200_000));
+    let n = ctx.tier.pick(60_000, ctx.scale(1_500_000));
     for _ in 0..n {
         k += 1;
         let class = rng.below(3);
